@@ -19,7 +19,7 @@ THEOREMS = ['Scr.c16_ids', 'Scr.c16_array_bijection', 'Scr.c16_pbs_rewrite', 'Sc
             # the hand model = the translated body of gen_cluster_script (Gen.gcsOpts, Gen.gcsTail), the other entry points
             'Scr.gcsOpts_refines', 'Scr.gcsTail_refines', 'Scr.gcsWrappers_faithful', 'Scr.c16_gen_fields', 'Scr.c16_gen_closed',
             # xyzpy-grow, on the translated effect skeleton of xyzpy_grow_cli.main (Gen.cliSk)
-            'Scr.c16_cli_unsown_raises', 'Scr.c16_cli_unsown_error', 'Scr.c16_cli_grow_guarded', 'Scr.c16_cli_grows_missing',
+            'Scr.c16_cli_unsown_raises', 'Scr.c16_cli_unsown_trace', 'Scr.c16_cli_grow_guarded', 'Scr.c16_cli_grows_missing',
             'Scr.c16_cli_exact']
 ANCHORS = ['tplSgeHeader', 'tplSgeArrayHeader', 'tplPbsHeader', 'tplPbsArrayHeader', 'tplSlurmHeader',
            'tplSlurmArrayHeader', 'tplBase', 'tplArrayGrowKwargs', 'tplSgeGrowAll', 'tplPbsGrowAll', 'tplSlurmGrowAll',
